@@ -128,6 +128,8 @@ fn setup(state: u32) -> rspirv::dr::Builder {
     let mut b = rspirv::dr::Builder::new();
     if state >= 1 { b.begin_function(1, Some(50), spirv::FunctionControl::NONE, 2).unwrap(); }
     if state >= 2 { b.begin_block(Some(51)).unwrap(); b.nop().unwrap(); }
+    // 3: the function has a finished first block and its SECOND block is the selected one
+    if state >= 3 { b.branch(52).unwrap(); b.begin_block(Some(52)).unwrap(); b.nop().unwrap(); }
     b
 }
 """]
@@ -373,6 +375,6 @@ pub fn disas_operand(variant: &str, v: u64) -> String {
         bits = "v.bits()" if kind in masks else "v as u32"
         arms.append('        "%s" => match d.%s() { Ok(v) => format!("{{\\"ok\\": true, \\"bits\\": {}, \\"offset\\": {}}}", %s, d.offset()), '
                     'Err(e) => format!("{{\\"ok\\": false, \\"error\\": {}, \\"offset\\": {}}}", crate::ops::jstr(&format!("{:?}", e)), d.offset()) },' % (meth, meth, bits))
-    o.append("pub fn typed_request(meth: &str, w: u32) -> String {\n    let bytes = w.to_le_bytes();\n    let mut d = rspirv::binary::Decoder::new(&bytes);\n    match meth {\n"
+    o.append("pub fn typed_request(meth: &str, w: u32, empty: bool) -> String {\n    let full = w.to_le_bytes();\n    let bytes: &[u8] = if empty { &[] } else { &full };\n    let mut d = rspirv::binary::Decoder::new(bytes);\n    match meth {\n"
              + "\n".join(arms) + '\n        _ => "{\\"error\\": \\"unknown method\\"}".to_string(),\n    }\n}\n')
     return "\n".join(o) + "\n"
